@@ -51,7 +51,9 @@ func getProfile(name string) *Profile {
 	case "long":
 		return &Profile{Name: name, Horizon: [2]int{3700, 5600}, Long: true, W: cloneW(baseWeights, map[string]float64{"renew": 8, "migrate": 4, "store_new": 8}), AdvRate: 0.03, Silence: 0.1, TmoMax: 40}
 	case "longer":
-		return &Profile{Name: name, Horizon: [2]int{7300, 12500}, Long: true, W: cloneW(baseWeights, map[string]float64{"renew": 8, "migrate": 4, "store_new": 8}), AdvRate: 0.03, Silence: 0.1, TmoMax: 40}
+		return &Profile{Name: name, Horizon: [2]int{7300, 9000}, Long: true, W: cloneW(baseWeights, map[string]float64{"renew": 8, "migrate": 4, "store_new": 8}), AdvRate: 0.03, Silence: 0.1, TmoMax: 40}
+	case "longest":
+		return &Profile{Name: name, Horizon: [2]int{9000, 14500}, Long: true, W: cloneW(baseWeights, map[string]float64{"renew": 9, "migrate": 4, "store_new": 7}), AdvRate: 0.03, Silence: 0.1, TmoMax: 40}
 	case "timeout":
 		return &Profile{Name: name, Horizon: [2]int{150, 500}, W: cloneW(baseWeights, map[string]float64{"store_new": 14, "store_update": 8, "complete": 14, "renew": 1, "terminate": 1, "cancel": 3}), AdvRate: 0.03, Silence: 0.5, TmoMax: 12}
 	case "staking":
